@@ -21,3 +21,19 @@ package http
 //@   requires valid(client) && valid(req)
 //@   modifies target(response)
 //@   ensures decoded: err == nil ==> tgtvalid(response)
+
+// ---- C17: signed cookies ----
+// A cookie value is returned only if the request carries a cookie of that name which this
+// handler's securecookie instance accepts for that name; the value is what that cookie carries.
+//@ func httphelper.CookieHandler.CheckCookie
+//@   requires valid(c) && valid(r)
+//@   ensures fail-empty: err != nil ==> result0 == ""
+//@   ensures accepted: err == nil ==> callres("net/http.Request.Cookie", 1) == nil && callarg("net/http.Request.Cookie", 1) == name
+//@        && scAccepts(c.securecookie, name, callres("net/http.Request.Cookie", 0).Value)
+//@        && box(result0) == scDecoded(c.securecookie, name, callres("net/http.Request.Cookie", 0).Value)
+//@ func httphelper.CookieHandler.CheckQueryCookie
+//@   requires valid(c) && valid(r)
+//@   ensures fail-empty: err != nil ==> result0 == ""
+//@   ensures cookie-and-parameter-agree: err == nil ==> callres("httphelper.CookieHandler.CheckCookie", 1) == nil
+//@        && result0 == callres("httphelper.CookieHandler.CheckCookie", 0) && result0 == callres("net/http.Request.FormValue", 0)
+//@        && callarg("net/http.Request.FormValue", 1) == name && callarg("httphelper.CookieHandler.CheckCookie", 2) == name
